@@ -14,6 +14,7 @@ mod c16;
 mod c18;
 mod c19;
 mod c20;
+mod c20_json;
 mod c20_text;
 mod cek;
 mod driver;
@@ -98,6 +99,7 @@ fn main() {
         "c20-one" => c13::c20_one(&extra),
         "c15-text" => c15::text(&ctx),
         "c20-uplc-text" => c20_text::run(&ctx),
+        "c20-json" => c20_json::run(&ctx),
         other => {
             eprintln!("unknown sub-command {other}");
             std::process::exit(2);
